@@ -3,8 +3,8 @@
 From Coq Require Import ZArith List Bool Permutation.
 From Verif Require Import Containers.BitVecModel Containers.BitVecProofs Containers.ArenaModel Containers.ArenaProofs
   Containers.VecModel Containers.VecProofs Containers.WorldProofs Containers.World2Proofs Containers.HashModel Containers.HashProofs Containers.NameHashModel Containers.NameHashProofs Containers.StrModel Containers.StrProofs
-  Containers.TreeModel Containers.TreeProofs Containers.TreeGeneral Containers.TreeRotate Containers.TreeRecolor Containers.TreeLink Containers.TreeInsertAbs Containers.TreeInsertRefine Containers.TreeRemoveAbs Containers.TreeRemoveRefine Containers.ArenaChainModel Containers.ArenaChainProofs Containers.ArenaChainGeneral
-  Containers.ListModel Containers.ListProofs Containers.ListGeneral Containers.BitSetModel Containers.BitSetProofs Containers.BitSetWords Containers.RangeIterModel Containers.RangeIterProofs Containers.RangeIterGeneral.
+  Containers.TreeModel Containers.TreeProofs Containers.TreeGeneral Containers.TreeRotate Containers.TreeRecolor Containers.TreeLink Containers.TreeInsertAbs Containers.TreeInsertRefine Containers.TreeRemoveAbs Containers.TreeRemoveRefine Containers.ArenaChainModel Containers.ArenaChainProofs Containers.ArenaChainGeneral Containers.C18Examples
+  Containers.ListModel Containers.ListProofs Containers.ListGeneral Containers.ListFrame Containers.BitSetModel Containers.BitSetProofs Containers.BitSetWords Containers.RangeIterModel Containers.RangeIterProofs Containers.RangeIterGeneral Containers.RangeIterCompose.
 From VerifGen Require Import C18HashTable C18VecTable.
 Import ListNotations.
 Local Open Scope Z_scope.
@@ -376,6 +376,34 @@ Theorem C18_list_walks : forall d l, drep d l -> (length l < 1000)%nat -> dl_for
 Proof. exact dl_walks_sound. Qed.
 Print Assumptions C18_list_walks.
 
+(* ArenaList at full strength (round 5): what the operations do NOT change.  The link words of every node that is neither a
+   member of the list nor the node handed to the operation stay exactly as they were, for lists of any length; as a
+   consequence a second list kept in the same node heap still represents the same sequence. *)
+Theorem C18_list_add_frame : forall d l node dir j, drep d l -> ~ In j l -> j <> node ->
+  lget (dl_heap (dl_add d node dir)) j = lget (dl_heap d) j.
+Proof. exact dl_add_frame. Qed.
+Print Assumptions C18_list_add_frame.
+
+Theorem C18_list_insert_frame : forall d l ref node dir j, drep d l -> In ref l -> ~ In j l -> j <> node -> ~ In node l ->
+  lget (dl_heap (dl_insert d ref node dir)) j = lget (dl_heap d) j.
+Proof. exact dl_insert_frame. Qed.
+Print Assumptions C18_list_insert_frame.
+
+Theorem C18_list_unlink_frame : forall d l node j, drep d l -> In node l -> ~ In j l ->
+  lget (dl_heap (dl_unlink d node)) j = lget (dl_heap d) j.
+Proof. exact dl_unlink_frame. Qed.
+Print Assumptions C18_list_unlink_frame.
+
+Theorem C18_list_pop_frame : forall d l j, drep d l -> l <> [] -> ~ In j l ->
+  lget (dl_heap (snd (dl_pop_first d))) j = lget (dl_heap d) j /\ lget (dl_heap (snd (dl_pop d))) j = lget (dl_heap d) j.
+Proof. intros d l j H Hne Hj. split; [exact (dl_pop_first_frame d l j H Hne Hj)|exact (dl_pop_frame d l j H Hne Hj)]. Qed.
+Print Assumptions C18_list_pop_frame.
+
+Theorem C18_list_add_keeps_other_list : forall d l node dir l' f' t', drep d l -> ~ In node l' -> (forall x, In x l' -> ~ In x l) ->
+  drep (mkdl (dl_heap d) f' t') l' -> drep (mkdl (dl_heap (dl_add d node dir)) f' t') l'.
+Proof. exact dl_add_keeps_other_list. Qed.
+Print Assumptions C18_list_add_keeps_other_list.
+
 (* ArenaPool: an item comes from the pool (a released, distinct, still live one-shot block) or from the arena *)
 Theorem C18_pool_alloc : forall mok a p item, inv a -> 0 < item <= 2 ^ 32 ->
   let sz := ((item + 7) / 8) * 8 in
@@ -423,7 +451,7 @@ Print Assumptions C18_range_iterator_unaligned_end_refuted.
 (* EVERY word size W > 0, the word-level core of BitVectorRangeIterator::next_range: i = ctz(w) starts the first run of set
    bits of the iterator word; bw = ~(w ^ ~(ones << i)) is zero exactly when the run reaches the end of the word; otherwise
    j = ctz(bw) is the first clear bit above i (the run is [i, j)) and the word left in the iterator has exactly the bits of w
-   from j on. (The loops around this step stay small-scope at W = 4 + correspondence at W = 32/64: partial.) *)
+   from j on. (The loops around this step: C18_range_iterator_skip / _extend, and their composition C18_range_iterator_next / _all_ranges below, for every W.) *)
 Theorem C18_range_iterator_word_run : forall W w, 0 < W -> word_ok W w -> w <> 0 ->
   let i := ctz w in
   let bw := wlnot W (Z.lxor w (wlnot W (shl_ones W i))) in
@@ -454,6 +482,77 @@ Theorem C18_range_iterator_skip : forall W (b : bool) ws fuel it it', ri_skip fu
     (forall j, 0 < j < k -> mword W b ws (ri_ptr it + j) = 0).
 Proof. exact ri_skip_spec. Qed.
 Print Assumptions C18_range_iterator_skip.
+
+(* the loop that extends a range over following full words (round 5), for every word width, any number of words and any fuel:
+   it walks over k >= 0 words that are all ones after the xor mask, each starting before end, and stops in exactly one of
+   three ways: (a) hint reached (or fuel): the range ends with the last full word, clamped to end; (b) the data ends: same
+   range end and the index is moved past end; (c) the next word is not full: the range ends at its first zero bit j, clamped,
+   and the iterator keeps that word with bits [0, j) cleared. *)
+Theorem C18_range_iterator_extend : forall W (b : bool) ws fuel it rstart rend hint it' rend',
+  ri_extend fuel W b ws it rstart rend hint = (it', rend') ->
+  ri_end it' = ri_end it /\
+  exists k, 0 <= k /\
+    (forall j, 0 < j <= k -> mword W b ws (ri_ptr it + j) = Z.ones W /\ ri_idx it + W * j < ri_end it) /\
+    let rk := if k =? 0 then rend else Z.min (ri_idx it + W * k + W) (ri_end it) in
+    ((it' = (if k =? 0 then it else mkri (ri_ptr it + k) (ri_idx it + W * k) (ri_end it) 0) /\ rend' = rk)
+     \/ (ri_idx it + W * k + W >= ri_end it /\
+         it' = mkri (ri_ptr it + k) (ri_idx it + W * k + W) (ri_end it) (if k =? 0 then ri_word it else 0) /\ rend' = rk)
+     \/ (ri_idx it + W * k + W < ri_end it /\ mword W b ws (ri_ptr it + k + 1) <> Z.ones W /\
+         let bw := mword W b ws (ri_ptr it + k + 1) in let j := ctz (wlnot W bw) in
+         it' = mkri (ri_ptr it + k + 1) (ri_idx it + W * k + W) (ri_end it) (Z.lxor bw (wlnot W (shl_ones W j))) /\
+         rend' = Z.min (ri_idx it + W * k + W + j) (ri_end it))).
+Proof. exact ri_extend_spec. Qed.
+Print Assumptions C18_range_iterator_extend.
+(* non-vacuity: 4-bit words 1111 1111 0111, the range that started in word 0 runs over word 1 and ends at bit 11 (exit c, k = 1);
+   with hint 5 the loop stops after word 1 (exit a); with end = 8 the data ends after word 1 (exit b) *)
+Example C18_range_iterator_extend_computed :
+  ri_extend 10 4 true [15; 15; 7] (mkri 0 0 12 0) 0 4 100 = (mkri 2 8 12 0, 11) /\
+  ri_extend 10 4 true [15; 15; 7] (mkri 0 0 12 0) 0 4 5 = (mkri 1 4 12 0, 8) /\
+  ri_extend 10 4 true [15; 15; 7] (mkri 0 0 8 0) 0 4 100 = (mkri 1 8 8 0, 8).
+Proof. vm_compute. auto. Qed.
+
+(* ONE CALL of next_range and the WHOLE iteration, for every word width (round 5; RangeIterCompose.v).  Positions are W*p + k;
+   `run lo hi v`: every position of [lo, hi) holds b (v = true) / does not hold b (v = false); `Inv it c`: index and word pointer
+   agree and the iterator word holds exactly the not-yet-reported b-bits of its word at or above the cursor c.
+   A call that answers true reports [s, e) with: no b in [c, s); b everywhere in [s, e0); e = min e0 end; and the iterator is
+   left with cursor e0 where (1) position e0 does not hold b (the run is maximal), or (2) the run was cut at a word boundary by
+   the hint, or (3) the data ended.  A call that answers false: no b in [c, end). *)
+Theorem C18_range_iterator_next : forall W (b : bool) ws, 0 < W -> (forall p, word_ok W (mword W b ws p)) ->
+  forall it c hint s e it', Inv W b ws it c -> ri_next W b ws it hint = Some (s, e, it') ->
+  exists e0, c <= s < e0 /\ run W b ws c s false /\ run W b ws s e0 true /\ e = Z.min e0 (ri_end it) /\ ri_end it' = ri_end it /\
+   ((Inv W b ws it' e0 /\ exists p k, 0 <= k < W /\ e0 = W * p + k /\ Z.testbit (mword W b ws p) k = false)
+    \/ (Inv W b ws it' e0 /\ ri_word it' = 0)
+    \/ (ri_word it' = 0 /\ ri_idx it' >= ri_end it' /\ e0 >= ri_end it)).
+Proof. exact next_inv. Qed.
+Print Assumptions C18_range_iterator_next.
+
+Theorem C18_range_iterator_next_none : forall W (b : bool) ws, 0 < W -> forall it c hint,
+  Inv W b ws it c -> 0 <= ri_ptr it -> ri_end it <= W * zlen ws -> ri_next W b ws it hint = None -> run W b ws c (ri_end it) false.
+Proof. exact next_none. Qed.
+Print Assumptions C18_range_iterator_next_none.
+
+(* the whole list of ranges from init(start, end): increasing, separated by positions that do not hold b, each made of
+   positions that hold b (chain: each range satisfies the clauses above and the next search starts at its unclipped end) *)
+Theorem C18_range_iterator_all_ranges : forall W (b : bool) ws start end_ hint, 0 < W -> words_ok W ws -> 0 <= start ->
+  (start / W) * W < end_ -> chain W b ws start end_ (ranges W b ws start end_ hint).
+Proof. exact ranges_sound. Qed.
+Print Assumptions C18_range_iterator_all_ranges.
+(* ... and COMPLETE: when end lies inside the vector, the fuel of `ranges` always suffices (every call moves the cursor forward),
+   and after the last range no position up to end holds b (chainc = chain + that final clause) *)
+Theorem C18_range_iterator_all_ranges_complete : forall W (b : bool) ws start end_ hint, 0 < W -> words_ok W ws -> 0 <= start ->
+  (start / W) * W < end_ -> end_ <= W * zlen ws -> chainc W b ws start end_ (ranges W b ws start end_ hint).
+Proof. exact ranges_sound_complete. Qed.
+Print Assumptions C18_range_iterator_all_ranges_complete.
+(* non-vacuity: the hypotheses hold for the 4-bit words 0110 1111 0001, and the computed answers *)
+Example C18_range_iterator_all_ranges_computed :
+  words_ok 4 [6; 15; 1] /\ 12 <= 4 * zlen [6; 15; 1] /\ Inv 4 true [6; 15; 1] (ri_init 4 true [6; 15; 1] 0 12) 0 /\
+  ranges 4 true [6; 15; 1] 0 12 100 = [(1, 3); (4, 9)] /\ ranges 4 true [6; 15; 1] 0 12 2 = [(1, 3); (4, 8); (8, 9)] /\
+  ranges 4 false [6; 15; 1] 2 12 100 = [(3, 4); (9, 12)].
+Proof.
+  assert (H : words_ok 4 [6; 15; 1]) by (repeat constructor; cbv; intuition discriminate).
+  split; [exact H|]. split; [discriminate|]. split; [apply init_inv; [reflexivity|apply mword_ok; [reflexivity|exact H]|discriminate|reflexivity]|].
+  vm_compute. auto.
+Qed.
 
 (* ================================================================== (6') red-black tree: unbounded semantics of every checked state *)
 (* for a node heap of ANY size: if the state checker (evaluated by the model driver after every operation of the
@@ -642,7 +741,8 @@ Theorem C18_tree_insert_loop_simulates : forall node kn fuel m zs F h g p t q di
   AInv node kn m zs F -> repz h zs q -> rep h q F -> Hyg node zs F -> 1 < node -> hget h node = mktn 0 0 true kn ->
   vars_ok m zs g p t dir last -> (zs = [] -> F <> BL) -> (pot node kn m F < fuel)%nat ->
   exists R, zloop node kn fuel m zs F = Some R /\
-    rep (insert_loop fuel h node g p t q dir last) (child (insert_loop fuel h node g p t q dir last) HEAD true) R.
+    rep (insert_loop fuel h node g p t q dir last) (child (insert_loop fuel h node g p t q dir last) HEAD true) R /\
+    (forall i, ~ In i (bids (plug zs F)) -> i <> HEAD -> i <> node -> hget (insert_loop fuel h node g p t q dir last) i = hget h i).
 Proof. exact insert_loop_sim. Qed.
 Print Assumptions C18_tree_insert_loop_simulates.
 
@@ -692,7 +792,8 @@ Theorem C18_tree_remove_loop_simulates : forall node kn fuel s h g p q dir f gf,
   exists e h' g' p' q' f' gf' dir',
     rloop kn fuel s = Some e /\ remove_loop fuel h node g p q f gf dir = (h', (g', p', q', f', gf')) /\
     Rrel node kn h' e p' q' dir' f' gf' /\ RAll kn e /\ rstep kn e = None /\
-    bkeys (whole e) = bkeys (whole s) /\ bids (whole e) = bids (whole s).
+    bkeys (whole e) = bkeys (whole s) /\ bids (whole e) = bids (whole s) /\
+    (forall i, ~ In i (bids (whole s)) -> i <> HEAD -> hget h' i = hget h i).
 Proof. exact remove_loop_sim. Qed.
 Print Assumptions C18_tree_remove_loop_simulates.
 
@@ -704,7 +805,9 @@ Theorem C18_tree_remove_refines : forall t T b node,
   bbh T = Some b -> sortedb (bkeys T) = true -> (bheight T < 98)%nat ->
   let kn := key (heap t) node in
   let t' := tree_remove t node in
-  exists R, zremove kn 200 T = Some R /\ rep (heap t') (root t') R /\ NoDup (bids R) /\ (forall i, In i (bids R) -> 1 < i).
+  exists R, zremove kn 200 T = Some R /\ rep (heap t') (root t') R /\ NoDup (bids R) /\ (forall i, In i (bids R) -> 1 < i) /\
+    (forall i, In i (bids R) -> In i (bids T)) /\
+    (forall i, ~ In i (bids T) -> i <> HEAD -> hget (heap t') i = hget (heap t) i).
 Proof. exact tree_remove_refines. Qed.
 Print Assumptions C18_tree_remove_refines.
 
@@ -737,7 +840,9 @@ Theorem C18_tree_insert_any_height : forall node kn fuel t T b,
     (forall k, lookup R k <> 0 <-> k = kn \/ In k (bkeys T)) /\
     (forall f', (bheight R < f')%nat ->
        (forall k, get_loop f' (heap t') (root t') k = lookup R k) /\ inorder f' (heap t') (root t') = bflat R) /\
-    NoDup (bids R) /\ (forall i, In i (bids R) <-> i = node \/ In i (bids T)).
+    NoDup (bids R) /\ (forall i, In i (bids R) <-> i = node \/ In i (bids T)) /\
+    (* what does NOT change: every heap cell other than the nodes of the tree, the new node and the false root *)
+    (forall i, ~ In i (bids T) -> i <> HEAD -> i <> node -> hget (heap t') i = hget (heap t) i).
 Proof. exact tree_insert_any_height. Qed.
 Print Assumptions C18_tree_insert_any_height.
 
@@ -752,7 +857,9 @@ Theorem C18_tree_remove_any_height : forall fuel t T b node,
     (forall k, lookup R k <> 0 <-> In k (bkeys R)) /\
     (forall f', (bheight R < f')%nat ->
        (forall k, get_loop f' (heap t') (root t') k = lookup R k) /\ inorder f' (heap t') (root t') = bflat R) /\
-    NoDup (bids R).
+    NoDup (bids R) /\ (forall i, In i (bids R) -> In i (bids T)) /\
+    (* what does NOT change: every heap cell other than the nodes of the tree and the false root *)
+    (forall i, ~ In i (bids T) -> i <> HEAD -> hget (heap t') i = hget (heap t) i).
 Proof. exact tree_remove_any_height. Qed.
 Print Assumptions C18_tree_remove_any_height.
 
@@ -865,4 +972,61 @@ Theorem C18_bitset_binary_bits : forall a a' b o, bs_inv a b -> bs_inv a' o ->
 Proof. exact bs_binary_bits. Qed.
 Print Assumptions C18_bitset_binary_bits.
 
+(* ... and they keep the representation invariant of this set (capacity, word array in the arena, unused bits clear, 64-bit words);
+   the other operand is only read *)
+Theorem C18_bitset_binary_invariant : forall a a' b o, bs_inv2 a b -> bs_inv2 a' o ->
+  bs_inv2 a (bs_and b o) /\ bs_inv2 a (bs_and_not b o) /\ bs_inv2 a (bs_or b o).
+Proof. exact bs_binary_inv. Qed.
+Print Assumptions C18_bitset_binary_invariant.
+
+(* copy_from(arena, other): on kOk this set has the other's size and bits and satisfies its invariant (reallocating through the
+   shared arena when the capacity does not suffice: new word array allocated, old one released); on kOutOfMemory it is untouched *)
+Theorem C18_bitset_copy_from : forall mok a a' b o, inv a -> bs_inv2 a b -> bs_inv2 a' o -> b_size o < 2 ^ 31 ->
+  let '(e, a1, b') := bs_copy_from mok a b o in
+  inv a1 /\
+  ((e = EOk /\ bs_inv2 a1 b' /\ b_size b' = b_size o /\ forall j, 0 <= j < b_size o -> bs_bit b' j = bs_bit o j)
+   \/ (e = EOutOfMemory /\ b' = b /\ bs_inv a1 b)).
+Proof. exact bs_copy_from_sound. Qed.
+Print Assumptions C18_bitset_copy_from.
+
+(* ================================================================== non-vacuity of the round 3-5 theorems: concrete instances of their
+   hypotheses (Containers/C18Examples.v), with the conclusions computed on them *)
+Example C18_tree_hypotheses_satisfiable :
+  rep (heap ex_tree) (root ex_tree) ex_T /\ NoDup (bids ex_T) /\ (forall i, In i (bids ex_T) -> 1 < i /\ i <> 4) /\ 1 < 4 /\
+  bbh ex_T = Some 2 /\ bred ex_T = false /\ sortedb (bkeys ex_T) = true /\ ~ In 15 (bkeys ex_T) /\ In 3 (bids ex_T) /\
+  (2 * bheight ex_T + 2 < 200)%nat /\ key (heap ex_tree) 3 = 20.
+Proof. exact ex_tree_hypotheses. Qed.
+Example C18_tree_insert_remove_computed :
+  tree_keys (tree_insert ex_tree 4 15) = [10; 15; 20] /\ rb_valid (tree_insert ex_tree 4 15) = true /\
+  tree_keys (tree_remove ex_tree 3) = [10] /\ rb_valid (tree_remove ex_tree 3) = true.
+Proof. exact ex_tree_insert_remove. Qed.
+Example C18_tree_loop_invariants_satisfiable : AInv 4 15 NoRot2 [] ex_T /\ RAll 20 (AtHead ex_T).
+Proof. exact (conj ex_insert_invariant ex_remove_invariant). Qed.
+Example C18_list_hypotheses_satisfiable : drep (dl_add (dl_add (dl_add dlist_empty 5 true) 6 true) 4 false) [4; 5; 6].
+Proof. exact ex_list. Qed.
+(* two lists over one node heap (the hypotheses of C18_list_add_keeps_other_list): node 9 is the only member of the second
+   list; appending node 5 to the (empty) first list leaves the second list as it was *)
+Example C18_list_two_lists_satisfiable :
+  let h := dl_heap (dl_add dlist_empty 9 true) in
+  drep (mkdl h 0 0) [] /\ drep (mkdl h 9 9) [9] /\ ~ In 5 [9] /\ (forall x, In x [9] -> ~ In x (@nil Z)) /\
+  drep (mkdl (dl_heap (dl_add (mkdl h 0 0) 5 true)) 9 9) [9].
+Proof.
+  cbv zeta. assert (H1 : drep (mkdl (dl_heap (dl_add dlist_empty 9 true)) 0 0) []).
+  { unfold drep. cbn. split; [constructor|]. split; [intros []|]. auto. }
+  assert (H2 : drep (mkdl (dl_heap (dl_add dlist_empty 9 true)) 9 9) [9]).
+  { unfold drep. cbn. split; [constructor; [intros []|constructor]|]. split; [intros [H|[]]; discriminate|]. auto. }
+  assert (H3 : ~ In 5 [9]) by (intros [H|[]]; discriminate).
+  assert (H4 : forall x, In x [9] -> ~ In x (@nil Z)) by (intros x _ []).
+  split; [exact H1|]. split; [exact H2|]. split; [exact H3|]. split; [exact H4|].
+  exact (dl_add_keeps_other_list _ [] 5 true [9] 9 9 H1 H3 H4 H2).
+Qed.
+Example C18_bitset_hypotheses_satisfiable : inv (arena_init 1024 0) /\ bs_inv2 (arena_init 1024 0) bitset_empty.
+Proof. exact ex_bitset_empty. Qed.
+Example C18_name_table_hypotheses_satisfiable : named_table hash_empty /\ bytes_ok name_a /\ bytes_ok name_b.
+Proof. destruct ex_named_table as (H1 & H2 & H3 & _). exact (conj H1 (conj H2 H3)). Qed.
+Example C18_range_word_hypotheses_satisfiable : word_ok 64 44 /\ 44 <> 0 /\ ctz 44 = 2.
+Proof. exact ex_range_word. Qed.
+Example C18_chain_hypotheses_satisfiable :
+  chain_at (mkchain 1 [100; 200; 300]) 2 [(2, 200); (3, 300)] /\ cfind (mkchain 1 [100; 200; 300]) 1 = Some (mkcb 1 2 100).
+Proof. exact ex_chain. Qed.
 
